@@ -12,7 +12,14 @@ include!("../../prelude/lc_types.rs");
 include!("../../prelude/dashmap.rs");
 #[derive(Default)] pub struct Lbfh { pub n: u8, pub cleared: bool }
 impl Lbfh { pub fn clear(&mut self) { self.n = 0; self.cleared = true; } }
-pub struct Peer { pub state: PeerState, pub latest_block_filter_hashes: Lbfh }
+/// in-flight requests of a peer (blocks proof / blocks / transactions proof): only the send time matters here
+#[derive(Clone, Copy, Default)] pub struct Req { pub when_sent: u64 }
+#[derive(Default)] pub struct Peer { pub state: PeerState, pub latest_block_filter_hashes: Lbfh, pub blocks_proof_request: Option<Req>, pub blocks_request: Option<Req>, pub txs_proof_request: Option<Req> }
+impl Peer {
+    pub fn get_blocks_proof_request(&self) -> Option<&Req> { self.blocks_proof_request.as_ref() }
+    pub fn get_blocks_request(&self) -> Option<&Req> { self.blocks_request.as_ref() }
+    pub fn get_txs_proof_request(&self) -> Option<&Req> { self.txs_proof_request.as_ref() }
+}
 pub struct Peers { pub inner: DashMap<PeerIndex, Peer> }
 pub mod packed {
     pub use super::Byte32;
@@ -60,12 +67,46 @@ mod harness {
     }
     /// installing a prove state that carries reorg headers (a fork switch, or a descendant of one) drops the peer's cached filter hashes of
     /// the abandoned branch; without reorg headers the cache is untouched; other peers are untouched
-    #[kani::proof] #[kani::unwind(80)]
+    /// O11.3: a peer is reported as timed out iff a request to it is unanswered for longer than MESSAGE_TIMEOUT (state-machine request, blocks proof, blocks,
+    /// transactions proof) or its last state was not refreshed within MESSAGE_TIMEOUT; every such peer exactly once
+    #[cfg(ups_timeout)] #[kani::proof] #[kani::unwind(4)]
+    fn timeouts() {
+        let peers = Peers { inner: DashMap::new() };
+        let clock = |t: u64| { kani::assume(t < (1u64 << 62)); t };   // local clock readings (milliseconds): below 2^62
+        let any_req_opt = || -> Option<Req> { if kani::any() { let t: u64 = kani::any(); kani::assume(t < (1u64 << 62)); Some(Req { when_sent: t }) } else { None } };
+        let mut k = 0u8;
+        while k < 2 {
+            let st = any_state();
+            if let Some(w) = st.when_sent_request() { clock(w); }
+            if let Some(ls) = st.get_last_state() { clock(ls.update_ts); }
+            peers.inner.insert(PeerIndex(k), Peer { state: st, latest_block_filter_hashes: Lbfh::default(), blocks_proof_request: any_req_opt(), blocks_request: any_req_opt(), txs_proof_request: any_req_opt() });
+            k += 1;
+        }
+        let now: u64 = kani::any();
+        let out = peers.get_peers_which_have_timeout(now);
+        let late = |t: u64| now > t + MESSAGE_TIMEOUT;
+        let mut k = 0u8;
+        while k < 2 {
+            let p = peers.inner.get(&PeerIndex(k)).unwrap();
+            let want = p.state.when_sent_request().map(|w| late(w)).unwrap_or(false)
+                || p.state.get_last_state().map(|ls| late(ls.update_ts)).unwrap_or(false)
+                || p.blocks_proof_request.map(|r| late(r.when_sent)).unwrap_or(false)
+                || p.blocks_request.map(|r| late(r.when_sent)).unwrap_or(false)
+                || p.txs_proof_request.map(|r| late(r.when_sent)).unwrap_or(false);
+            let mut c = 0; let mut i = 0; while i < 2 { if i < out.len && out.buf[i] == PeerIndex(k) { c += 1; } i += 1; }
+            if want { assert!(c == 1, "SPEC timeout: a peer with an unanswered request / an unchanged last state older than the message timeout is not reported (it would never be disconnected)"); }
+            else { assert!(c == 0, "SPEC timeout: a peer is reported as timed out although nothing is overdue"); }
+            kani::cover!(want && p.state.when_sent_request().is_none() && p.txs_proof_request.is_some(), "overdue transactions proof request of a peer whose state machine is idle");
+            k += 1;
+        }
+        assert!(out.len <= 2, "SPEC timeout: more reports than peers");
+    }
+    #[cfg(not(ups_timeout))] #[kani::proof] #[kani::unwind(80)]
     fn update_prove_state_clears_cache() {
         let peers = Peers { inner: DashMap::new() };
         let n0: u8 = kani::any(); let n1: u8 = kani::any();
-        peers.inner.insert(PeerIndex(0), Peer { state: any_state(), latest_block_filter_hashes: Lbfh { n: n0, cleared: false } });
-        peers.inner.insert(PeerIndex(1), Peer { state: any_state(), latest_block_filter_hashes: Lbfh { n: n1, cleared: false } });
+        peers.inner.insert(PeerIndex(0), Peer { state: any_state(), latest_block_filter_hashes: Lbfh { n: n0, cleared: false }, ..Default::default() });
+        peers.inner.insert(PeerIndex(1), Peer { state: any_state(), latest_block_filter_hashes: Lbfh { n: n1, cleared: false }, ..Default::default() });
         let nre: usize = kani::any(); kani::assume(nre <= 2);
         let mut reorg = Vec::new(); let mut i = 0; while i < 2 { if i < nre { reorg.push(HeaderView { id: kani::any(), number: kani::any(), ..Default::default() }); } i += 1; }
         let ps = ProveState::new_from_request(any_req(), reorg, Vec::new());
